@@ -99,7 +99,7 @@ fn main() {
                     if timed_out && api != "park" && el < d {
                         c.fail(format!("{api}({d} ns) in {} reported a timeout after only {el} ns", if may::coroutine::is_coroutine() { "coroutine" } else { "thread" }));
                     }
-                    if !stalls && el > d + 1_000_000 + 1_000 && api != "cond" {
+                    if !stalls && el > d + 1_000_000 + 200_000 && api != "cond" {
                         c.fail(format!("{api}({d} ns) returned only after {el} ns although nothing delayed it"));
                     }
                 }
